@@ -431,7 +431,8 @@ func IfFunc(query *Query, current Map, functionOptions *FunctionOptions, args []
 	if err != nil {
 		return nil, err
 	}
-	if *condition {
+	// a NULL condition is not true
+	if condition != nil && *condition {
 		if whenTrue == nil {
 			return nil, nil
 		}
